@@ -466,6 +466,12 @@ Section Variant.
   (* FilePiece(name) / FilePiece(fd) on a regular uncompressed file: Initialize, mmap backend, first Shift *)
   Definition init_file (P min_buffer : nat) (data : list N) (chunks : oracle) : option fp :=
     shift (init_common P min_buffer data chunks).
+  (* FilePiece(fd) on a regular file whose descriptor is positioned at offset k (a header the caller consumed):
+     Initialize sets mapped_offset_ = current_offset = k, the first MMapShift maps from the page below k and puts position_
+     `k mod page` bytes into the map.  `data` is the whole file. *)
+  Definition init_file_at (k P min_buffer : nat) (data : list N) (chunks : oracle) : option fp :=
+    let s := init_common P min_buffer data chunks in
+    shift (mk_fp (buf s) (pos s) (ls s) k (dms s) (at_end s) (fallback s) (mapped s) (page s) (file s) (source s) (fuel s)).
   (* FilePiece(fd) on a pipe: TransitionToRead, first Shift *)
   Definition init_pipe (P min_buffer : nat) (data : list N) (chunks : oracle) : option fp :=
     shift (transition_to_read 0 (init_common P min_buffer data chunks)).
@@ -507,7 +513,7 @@ End Variant.
 
 Arguments LOk {A}. Arguments LEof {A}. Arguments LFuel {A}.
 
-Inductive backend := BFile | BPipe | BStream | BPipeStream | BFileNoMmap.
+Inductive backend := BFile | BPipe | BStream | BPipeStream | BFileNoMmap | BFileAt (k : nat).
 Definition init (v : variant) (b : backend) (P min_buffer : nat) (data : list N) (chunks : oracle) : option fp :=
   match b with
   | BFile => init_file v P min_buffer data chunks
@@ -515,7 +521,11 @@ Definition init (v : variant) (b : backend) (P min_buffer : nat) (data : list N)
   | BStream => init_stream P min_buffer data chunks
   | BPipeStream => init_pipe_stream v P min_buffer data chunks
   | BFileNoMmap => init_file_nommap v P min_buffer data chunks
+  | BFileAt k => init_file_at v k P min_buffer data chunks
   end.
+
+(* where the input starts in `data` (0 except for a descriptor handed over at an offset) *)
+Definition start_of (b : backend) : nat := match b with BFileAt k => k | _ => 0 end.
 
 (* what the drivers print for one case: None when the constructor threw end of file (it cannot) *)
 Definition transcript (v : variant) (b : backend) (P min_buffer : nat) (data : list N) (chunks : oracle)
